@@ -462,3 +462,161 @@ Proof.
       { exact Frs. } { exact He. } { left. discriminate. } { cbn [length] in *. lia. }
       { rewrite <- app_assoc. reflexivity. }
 Qed.
+
+Lemma resp_layout_pos r : (1 <= length (resp_layout r))%nat.
+Proof. destruct (resp_layout_head r) as (tl & ->). cbn [length]. lia. Qed.
+
+(* parameters as decoded: codes, normalised responses, the transmitted fault location *)
+Lemma fin_norm_dlen c q : fin_dlen c (fin_norm q) = fin_dlen c q.
+Proof.
+  unfold fin_dlen, fin_body, fin_norm, fin_fault_emitted. cbn [fn_cc fn_dc fn_fs fn_resps fn_fault].
+  rewrite cat_resp_norm. destruct (fault_allowed (fn_cc q)); reflexivity.
+Qed.
+
+Lemma fin_norm_body q : fin_body (fin_norm q) = fin_body q.
+Proof.
+  unfold fin_body, fin_norm, fin_fault_emitted. cbn [fn_cc fn_dc fn_fs fn_resps fn_fault].
+  rewrite cat_resp_norm. destruct (fault_allowed (fn_cc q)); reflexivity.
+Qed.
+
+Lemma fin_norm_layout c q : fin_layout c (fin_norm q) = fin_layout c q.
+Proof.
+  unfold fin_layout, fin_header. rewrite fin_norm_dlen, fin_norm_body. reflexivity.
+Qed.
+
+Lemma fin_norm_valid c q : fin_valid c q -> fin_valid c (fin_norm q).
+Proof.
+  intros (C & Vc & Vd & Vf & Vr & Vl & D). unfold fin_valid. rewrite fin_norm_dlen.
+  unfold fin_norm. cbn [fn_cc fn_dc fn_fs fn_resps fn_fault].
+  split; [exact C|]. split; [exact Vc|]. split; [exact Vd|]. split; [exact Vf|]. split; [|split; [|exact D]].
+  - apply Forall_forall. intros x Hx. apply in_map_iff in Hx. destruct Hx as (r & <- & Hr).
+    apply resp_norm_valid. rewrite Forall_forall in Vr. apply Vr. exact Hr.
+  - unfold fin_fault_emitted. destruct (fault_allowed (fn_cc q)); [exact Vl|exact I].
+Qed.
+
+Lemma fin_norm_idem q : fin_norm (fin_norm q) = fin_norm q.
+Proof.
+  unfold fin_norm, fin_fault_emitted. cbn [fn_cc fn_dc fn_fs fn_resps fn_fault].
+  rewrite map_map. f_equal.
+  - apply map_ext. intros r. apply resp_norm_idem.
+  - destruct (fault_allowed (fn_cc q)); reflexivity.
+Qed.
+
+Lemma fin_empty_ok : exists e0, fin_empty = Ok e0.
+Proof. eexists. vm_compute. reflexivity. Qed.
+
+(* K_unpack_pack: the decoder applied to the prescribed octets (followed by anything) returns
+   the PDU object of the transmitted parameters, for response lists of any length *)
+Theorem fin_unpack_pack c q rest : fin_valid c q -> wf_bytes rest ->
+  fin_unpack (fin_layout c q ++ rest) = Ok (fin_pdu_of c (fin_norm q)).
+Proof.
+  intros V Wr. pose proof V as (C & Vc & Vd & Vf & Vr & Vl & D).
+  assert (Fc : flag (cf_crc c)) by apply C.
+  pose proof (fin_fdir_valid c q V) as FV. pose proof (fin_pre_wf c q V) as Wpre.
+  pose proof (fin_dlen_nonneg c q) as Dn.
+  set (f := fdir_of (conf_set_dir c 1) DT_FINISHED (fin_dlen c q - 1)) in *.
+  assert (E : hdr_layout (fin_header c q) ++ [D_FINISHED] = fdir_layout f).
+  { unfold fdir_layout, f, fdir_of, fin_header. cbn [fd_hdr fd_type].
+    replace (fin_dlen c q - 1 + 1) with (fin_dlen c q) by lia. reflexivity. }
+  set (b0 := fn_cc q * 16 + fn_dc q * 4 + fn_fs q).
+  set (T := cat resp_layout (fn_resps q) ++ fin_fault_layout q).
+  assert (PRE : hdr_layout (fin_header c q) ++ [D_FINISHED] ++ fin_body q = fdir_layout f ++ [b0] ++ T).
+  { rewrite app_assoc, E, fin_body_eq. reflexivity. }
+  set (pre := hdr_layout (fin_header c q) ++ [D_FINISHED] ++ fin_body q) in *.
+  assert (HL : len (fdir_layout f) = fdir_header_len f) by (apply fdir_layout_len; exact FV).
+  assert (PL : hdr_packet_len (fd_hdr f) = len pre + crc_octets c).
+  { rewrite PRE, !len_app, HL. unfold hdr_packet_len, f, fdir_of, fdir_header_len. cbn [fd_hdr h_dlen].
+    rewrite fin_dlen_eq, resps_len_cat. unfold T. rewrite len_app. change (len [b0]) with 1. lia. }
+  assert (LT : len T = resps_len (fn_resps q) + len (fin_fault_layout q)).
+  { unfold T. rewrite len_app, resps_len_cat. reflexivity. }
+  unfold fin_unpack. destruct fin_empty_ok as (e0 & ->). cbn [bind].
+  unfold fin_layout. fold pre.
+  (* file directive base *)
+  assert (U : fdir_unpack (with_crc c pre ++ rest) = Ok f).
+  { rewrite with_crc_split, PRE, <- !app_assoc. apply fdir_unpack_layout; [exact FV|].
+    rewrite <- PRE in *. clear - Wpre Wr PRE. rewrite PRE in Wpre. rewrite !wf_bytes_app in *.
+    destruct Wpre as (_ & W1 & W2). repeat split; try assumption. apply crc_tail_wf. }
+  rewrite U. cbn [bind].
+  rewrite verify_with_crc; [|exact Wpre|exact Fc|reflexivity|destruct (hdr_valid_packet_len _ (proj1 FV)); lia|exact PL].
+  cbn [bind].
+  assert (LD : len (with_crc c pre ++ rest) = hdr_packet_len (fd_hdr f) + len rest).
+  { rewrite len_app, with_crc_len. lia. }
+  pose proof (len_nonneg rest) as Lr. pose proof (len_nonneg T) as LTn.
+  unfold fdir_packet_len. destruct (hdr_packet_len (fd_hdr f) >? _) eqn:G; [lia|]. clear G.
+  change (cf_crc (h_conf (fd_hdr f))) with (cf_crc c).
+  assert (EP : (if cf_crc c =? CRC_WITH_CRC then hdr_packet_len (fd_hdr f) - 2 else hdr_packet_len (fd_hdr f))
+               = fdir_header_len f + 1 + len T).
+  { rewrite PL, PRE, !len_app, HL. change (len [b0]) with 1. unfold crc_octets, CRC_WITH_CRC.
+    destruct (cf_crc c =? 1); lia. }
+  rewrite EP. destruct (fdir_header_len f >=? fdir_header_len f + 1 + len T) eqn:G; [lia|]. clear G.
+  (* first parameter octet *)
+  assert (DATA : with_crc c pre ++ rest = fdir_layout f ++ b0 :: T ++ crc_tail c pre ++ rest).
+  { rewrite with_crc_split, PRE, <- !app_assoc. reflexivity. }
+  rewrite DATA at 1. rewrite py_get_at by (symmetry; exact HL). cbn [bind].
+  destruct (finoct_of (fn_cc q) (fn_dc q) (fn_fs q)) as (R & _ & D1 & D2 & D3); [apply Vc|exact Vd|exact Vf|].
+  fold b0 in R, D1, D2, D3. rewrite D1, D2, D3.
+  rewrite cc_valid_member by exact Vc. rewrite dc_member by exact Vd. rewrite fs_member by exact Vf. cbn [bind].
+  destruct (fdir_header_len f + 1 + len T >? fdir_header_len f + 1) eqn:G.
+  - (* TLV area not empty *)
+    assert (SL : slice (with_crc c pre ++ rest) (fdir_header_len f + 1) (fdir_header_len f + 1 + len T) = T).
+    { rewrite DATA. change (fdir_layout f ++ b0 :: T ++ crc_tail c pre ++ rest)
+        with (fdir_layout f ++ [b0] ++ T ++ crc_tail c pre ++ rest).
+      rewrite app_assoc. apply slice_at; rewrite len_app, HL; reflexivity. }
+    rewrite SL. unfold fin_unpack_tlvs. cbn [fin_params].
+    set (ent := match fin_fault_emitted q with Some t => Some (tlv_value t) | None => None end).
+    assert (TE : T = [] ++ cat resp_layout (fn_resps q) ++ ent_layout ent).
+    { unfold T, fin_fault_layout, ent. destruct (fin_fault_emitted q); reflexivity. }
+    assert (MH : fin_might_have_fault {| fn_cc := fn_cc q; fn_dc := fn_dc q; fn_fs := fn_fs q; fn_resps := []; fn_fault := None |}
+                 = fault_allowed (fn_cc q)) by reflexivity.
+    rewrite MH.
+    assert (X1 : match ent with Some v => len v <= 255 /\ fault_allowed (fn_cc q) = true | None => True end).
+    { unfold ent, fin_fault_emitted. destruct (fault_allowed (fn_cc q)); [|exact I].
+      destruct (fn_fault q) as [t|]; [|exact I]. split; [apply Vl|reflexivity]. }
+    assert (X2 : fn_resps q <> [] \/ ent <> None).
+    { destruct (fn_resps q) as [|r rs]; [right|left; discriminate].
+      unfold ent. destruct (fin_fault_emitted q) as [t|] eqn:FE; [discriminate|].
+      exfalso. unfold T, fin_fault_layout in LTn, G. rewrite FE in G. cbn [cat app] in G. rewrite len_nil in G. lia. }
+    assert (X3 : (length (fn_resps q) + 1 <= S (length T))%nat).
+    { assert ((length (fn_resps q) <= length T)%nat); [|lia].
+      unfold T. rewrite app_length.
+      pose proof (cat_length_ge resp_layout (fn_resps q)) as X.
+      assert (Forall (fun x => (1 <= length (resp_layout x))%nat) (fn_resps q)) as Y
+        by (apply Forall_forall; intros x _; apply resp_layout_pos).
+      specialize (X Y). lia. }
+    pose proof (fin_tlv_loop_spec (fn_resps q) (S (length T)) [] [] None ent (fault_allowed (fn_cc q)) T Vr X1 X2 X3 TE) as LS.
+    change (len []) with 0 in LS. rewrite LS. clear LS.
+    cbn [bind app len length].
+    (* the two setters *)
+    assert (ET : ent_tlv ent None = fin_fault_emitted q).
+    { unfold ent, ent_tlv, fin_fault_emitted. destruct (fault_allowed (fn_cc q)); [|reflexivity].
+      destruct (fn_fault q) as [t|]; [|reflexivity]. destruct Vl as (Ty & _). rewrite <- (tlv_eta t) at 2.
+      unfold TLV_ENTITY_ID. unfold T_ENTITY_ID in Ty. rewrite Ty. reflexivity. }
+    rewrite ET. unfold fin_set_resps. cbn [fin_fdir fin_params]. unfold fn_with_resps. cbn [fn_cc fn_dc fn_fs fn_fault].
+    fold f. unfold f at 1. rewrite fin_calc_len_spec by exact Fc.
+    set (q1 := {| fn_cc := fn_cc q; fn_dc := fn_dc q; fn_fs := fn_fs q; fn_resps := map resp_norm (fn_resps q); fn_fault := None |}).
+    assert (D1' : fin_dlen c q1 <= fin_dlen c q).
+    { rewrite !fin_dlen_eq. unfold q1 at 1. cbn [fn_resps]. rewrite !resps_len_cat, cat_resp_norm.
+      assert (len (fin_fault_layout q1) = 0) as -> by (unfold fin_fault_layout, fin_fault_emitted, q1; cbn [fn_fault fn_cc];
+        destruct (fault_allowed (fn_cc q)); reflexivity).
+      pose proof (len_nonneg (fin_fault_layout q)). lia. }
+    destruct (fin_dlen c q1 <=? 65535) eqn:G1; [|lia]. cbn [bind].
+    destruct (fin_fault_emitted q) as [t|] eqn:FE.
+    * unfold fin_set_fault, fn_with_fault, fin_pdu_of, q1. cbn [fin_fdir fin_params fn_cc fn_dc fn_fs fn_resps].
+      rewrite fin_calc_len_spec by exact Fc.
+      assert (QN : {| fn_cc := fn_cc q; fn_dc := fn_dc q; fn_fs := fn_fs q; fn_resps := map resp_norm (fn_resps q); fn_fault := Some t |}
+                   = fin_norm q) by (unfold fin_norm; rewrite FE; reflexivity).
+      rewrite QN, fin_norm_dlen. destruct (fin_dlen c q <=? 65535) eqn:G2; [|lia].
+      unfold fin_pdu_of. rewrite ?fin_norm_dlen. reflexivity.
+    * assert (QN : q1 = fin_norm q) by (unfold fin_norm, q1; rewrite FE; reflexivity).
+      rewrite QN. reflexivity.
+  - (* no TLVs *)
+    assert (T0 : T = []) by (apply len_0_nil; lia).
+    assert (R0 : fn_resps q = []).
+    { unfold T in T0. apply app_eq_nil in T0. destruct T0 as (T1 & _).
+      destruct (fn_resps q) as [|r rs]; [reflexivity|]. cbn [cat] in T1.
+      destruct (resp_layout_head r) as (tl & Hd). rewrite Hd in T1. discriminate. }
+    assert (F0 : fin_fault_emitted q = None).
+    { unfold T in T0. apply app_eq_nil in T0. destruct T0 as (_ & T2).
+      unfold fin_fault_layout in T2. destruct (fin_fault_emitted q) as [t|]; [discriminate|reflexivity]. }
+    unfold fin_pdu_of. rewrite fin_norm_dlen. unfold fin_norm. rewrite R0, F0. reflexivity.
+Qed.
